@@ -345,6 +345,9 @@ def main(pid, tier, replay_path=None):
             elif pid == 'C07':
                 import readp as proto
                 pname = 'readproto'
+            elif pid in ('C05', 'C06', 'C09'):
+                import connp as proto
+                pname = 'connmodel'
             if proto and not replay_path:
                 # the hand-off as an implementation-shaped model: exhaustive TLC, then its schedules on the real code
                 fst, ftr = proto.exhaustive(sc, tier)
@@ -400,6 +403,12 @@ def main(pid, tier, replay_path=None):
                     c_, t_, excl = flushp.impl_check(sc, [(byid[v['scenario']], r)], 'k%d' % len(seen))
                     if c_ == t_ and not excl:
                         kf = next((f for f in findings if f['id'] == 'F16'), None)
+                if not kf and pid == 'C09' and byid[v['scenario']].get('cnkind') and r['info'].get('proj') and v['rule'] in ('C09.ondisconnect_after_close_callbacks', 'C09.callback_after_close_callbacks'):
+                    # ask the model: does Conn.tla (the code as it is) follow this very schedule and run OnDisconnect after the close callbacks on it (F11)?
+                    import connp
+                    c_, t_, rules = connp.impl_check(sc, [(byid[v['scenario']], r)], 'k%d' % len(seen))
+                    if c_ == t_ and 'ondisconnect_after_close_callbacks' in rules:
+                        kf = next((f for f in findings if f['id'] == 'F11'), None)
                 if kf:
                     known_hit.setdefault(kf['id'], kf)
                     if kf.get('signature', {}).get('poisons_rest'):
@@ -438,7 +447,7 @@ def main(pid, tier, replay_path=None):
                    'distinct_schedules': len({tuple(r['info']['taken']) for r in res.values()}),
                    'violations_of_other_properties_seen': len([v for v in vs if not v['rule'].startswith(pid + '.')]),
                    'known_findings_matched': sorted(known_hit),
-                   'spec_modules': vlib.spec_hashes(['ConnObs.tla', 'TraceConn.tla'] + ({'C08': ['FlushProto.tla', 'TraceFPImpl.tla'], 'C07': ['ReadProto.tla', 'TraceRPImpl.tla']}.get(pid, []) if fp_scs else [])),
+                   'spec_modules': vlib.spec_hashes(['ConnObs.tla', 'TraceConn.tla'] + ({'C08': ['FlushProto.tla', 'TraceFPImpl.tla'], 'C07': ['ReadProto.tla', 'TraceRPImpl.tla'], 'C05': ['Conn.tla', 'TraceConnImpl.tla'], 'C06': ['Conn.tla', 'TraceConnImpl.tla'], 'C09': ['Conn.tla', 'TraceConnImpl.tla']}.get(pid, []) if fp_scs else [])),
                    'explanation': 'real connection on a socketpair with a manual poller under the controlled scheduler (every locker/FDOperator/trigger/'
                                   'length primitive is a schedule point); each execution is a recorded event trace validated by TLC against ConnObs.tla; '
                                   'states/transitions are those of the trace-validation run (one state per event)'}
